@@ -284,6 +284,7 @@ FRAMERS = ('pymodbus.framer.socket_framer.ModbusSocketFramer', 'pymodbus.framer.
            'pymodbus.framer.tls_framer.ModbusTlsFramer')
 STORES = ('pymodbus.datastore.context.ModbusSlaveContext', 'pymodbus.datastore.context.ModbusServerContext',
           'pymodbus.datastore.store.ModbusSequentialDataBlock', 'pymodbus.datastore.store.ModbusSparseDataBlock')
+REMOTE = ('pymodbus.datastore.remote.RemoteSlaveContext',)
 PAYLOAD = ('pymodbus.payload.BinaryPayloadBuilder',)
 IDENTITY = ('pymodbus.device.ModbusDeviceIdentification',)
 
@@ -450,3 +451,41 @@ TWISTED_CLIENTS = ('pymodbus.client.asynchronous.twisted.ModbusClientProtocol', 
                    'pymodbus.client.asynchronous.twisted.ModbusSerClientProtocol')
 SYNC_CLIENTS = ('pymodbus.client.sync.ModbusTcpClient', 'pymodbus.client.sync.ModbusTlsClient', 'pymodbus.client.sync.ModbusUdpClient',
                 'pymodbus.client.sync.ModbusSerialClient')
+
+
+def rule_no_mutable_default_stored(ck, cx, rule, class_qns, why, floor=1):
+    """a constructor that stores a mutable DEFAULT ARGUMENT ([] / {} / set() / list() ...) in the instance makes every object built
+    without that argument share one container"""
+    ck.rule(rule, 'constructors of %s do not store a mutable default argument in the instance' % ', '.join(q.rsplit('.', 1)[-1] for q in class_qns))
+    from .rules.c02 import _may_be_default
+    seen, n = set(), 0
+    for q in class_qns:
+        k = cx.idx.cls(q)
+        for c in cx.idx.mro(k):
+            init = c.methods.get('__init__')
+            if init is None or init.qn in seen or not c.qn.startswith('pymodbus.'):
+                continue
+            seen.add(init.qn)
+            ck.saw('functions', init.qn)
+            a = init.node.args
+            pos = a.posonlyargs + a.args
+            muts = {}
+            for arg, d in list(zip(pos[len(pos) - len(a.defaults):], a.defaults)) + [(x, y) for x, y in zip(a.kwonlyargs, a.kw_defaults) if y is not None]:
+                if isinstance(d, (ast.List, ast.Dict, ast.Set)) or (isinstance(d, ast.Call) and isinstance(d.func, ast.Name)
+                                                                      and d.func.id in ('list', 'dict', 'set', 'bytearray') and not d.args):
+                    muts[arg.arg] = d
+            n += 1
+            if not muts:
+                continue
+            for p in cx.enum(init, c, max_depth=1):
+                annotate(p, heap=False)
+                for ev in p.ev:
+                    v = getattr(ev, '_sub', None)
+                    if ev.kind == 'assign' and isinstance(ev.a, ast.Attribute) and ev.frame.fid == 0 and U(ev.a.value) == 'self' and v is not None:
+                        for prm in muts:
+                            ck.ob(rule, init.qn, 'self.%s does not alias the mutable default of `%s`' % (ev.a.attr, prm), not _may_be_default(v, prm),
+                                  detail='mutable-default-stored %s=%s' % (ev.a.attr, prm), loc=cx.floc(init, ev.node),
+                                  message='%s stores its default argument %s=%s in self.%s: every object built without that argument shares one container — %s'
+                                          % (init.qn, prm, U(muts[prm]), ev.a.attr, why))
+    ck.floor(rule, n, floor, 'constructors examined for stored mutable defaults')
+    return n
